@@ -271,7 +271,16 @@ def main():
         ck.distinct |= set(res["distinct"])
     ck.sample(chosen[0])
     ck.sample(chosen[len(chosen) // 2])
-    accumulation(ck, rng)
+    for res in run_workers(os.path.abspath(__file__), [{"acc": True, "seed": ck.seed}], nproc=1, timeout=1200, allow_crash=True):
+        if "worker_died" in res:
+            ck.violation("accumulate:process-died", {"returncode": res["worker_died"], "log": res["log"][-400:]})
+        elif "crash" in res:
+            raise MachineryError("worker crashed: %s\n%s" % (res["crash"], res.get("tb")))
+        else:
+            for v in res["violations"]:
+                ck.violation(v["site"], v["detail"], v["replay"])
+            ck.evaluations += res["evaluations"]
+            ck.distinct |= set(res["distinct"])
     # extra native baselines (thorough and quick: cheap)
     for mul in ("chachiyo", "damp"):
         for mode in ("SEP", "NPOL"):
@@ -286,6 +295,9 @@ def main():
 def worker(job):
     ck = Check("C04", "exploration")
     rng = np.random.default_rng(job["seed"])
+    if job.get("acc"):
+        accumulation(ck, rng)
+        return {"violations": ck.violations, "evaluations": ck.evaluations, "distinct": sorted(ck.distinct)}
     for c in job["cfgs"]:
         check_cfg(ck, c, rng)
     return {"violations": ck.violations, "evaluations": ck.evaluations, "distinct": sorted(ck.distinct)}
